@@ -1,5 +1,5 @@
 SPECIFICATION Spec
-CONSTANT Mode = "compiler"
+CONSTANT Mode = "resolver"
 INVARIANT Report
 INVARIANT Refines
 CHECK_DEADLOCK FALSE
